@@ -76,6 +76,7 @@ type Exec struct {
 
 func NewExec(p *Program, w *World, prefix string) *Exec {
 	w.ModPath = p.ModPath
+	curWorld = w
 	readonlyCallee = func(fn *types.Func) bool {
 		fi := p.ByObj[fn]
 		if fi == nil {
